@@ -113,6 +113,58 @@ Theorem C19_text_file_of_integers_roundtrip :
 Proof. exact ints_text_roundtrip. Qed.
 Print Assumptions C19_text_file_of_integers_roundtrip.
 
+(* ---- directories of instance files: operation counts, the file generators, the writer's file names ---- *)
+Theorem C19_fjsp_n_ops_of_written_file :
+  forall (fmt : Z -> Z -> tok) (g : ginst) (f : list (list tok)),
+    wf_fjspb g = true ->
+    (exists v, parse_num (fmt (count_pos (g_pt g)) (count_real (g_pad g))) = Ok v) ->
+    fjsp_write fmt (reset_view g) = Ok f -> n_ops_of fjsp_parse_job_line f = Ok (g_total g).
+Proof. exact fjsp_n_ops_written. Qed.
+Print Assumptions C19_fjsp_n_ops_of_written_file.
+
+Theorem C19_jssp_n_ops_of_file :
+  forall g : ginst, wf_jsspb g = true -> n_ops_of jssp_parse_job_line (jssp_format g) = Ok (g_total g).
+Proof. exact jssp_n_ops_format. Qed.
+Print Assumptions C19_jssp_n_ops_of_file.
+
+(* >= 2 files, in any listing order: every instance comes back, padded to the largest operation count of the directory *)
+Theorem C19_fjsp_file_generator_roundtrip :
+  forall (gs : list ginst) (files : list (list (list tok))) (n_ops_max : option Z),
+    (2 <= length gs)%nat ->
+    forallb (fun g => wf_fjspb g && (count_real (g_pad g) <=? count_pos (g_pt g))%Z)%bool gs = true ->
+    mapM (fun g => fjsp_write fmt5 (reset_view g)) gs = Ok files ->
+    file_generator fjsp_parse_job_line n_ops_max files = Ok (map (repad (Z.to_nat (dir_width gs))) gs).
+Proof. exact fjsp_file_generator_roundtrip. Qed.
+Print Assumptions C19_fjsp_file_generator_roundtrip.
+
+Theorem C19_jssp_file_generator_roundtrip :
+  forall (gs : list ginst) (n_ops_max : option Z),
+    (2 <= length gs)%nat -> forallb wf_jsspb gs = true ->
+    file_generator jssp_parse_job_line n_ops_max (map jssp_format gs) = Ok (map (repad (Z.to_nat (dir_width gs))) gs).
+Proof. exact jssp_file_generator_roundtrip. Qed.
+Print Assumptions C19_jssp_file_generator_roundtrip.
+
+(* the writer's file name carries the 0-based index of the instance: distinct instances, distinct files *)
+Theorem C19_file_name_carries_index :
+  forall id nj nm : Z, (0 <= id)%Z -> index_of_name (file_name id nj nm) = Some id.
+Proof. exact index_of_file_name. Qed.
+Print Assumptions C19_file_name_carries_index.
+
+(* ---- rl4co/data/utils.py check_extension: the result carries the extension exactly once ---- *)
+Theorem C19_check_extension_has_ext :
+  forall f e : text,
+    plain_ext e = true -> existsb (fun c => negb (is_dot c)) (basename_rev f) = true ->
+    ext_of (check_extension f ("."%char :: e)) = "."%char :: e
+    /\ check_extension (check_extension f ("."%char :: e)) ("."%char :: e) = check_extension f ("."%char :: e).
+Proof. exact (fun f e He Hf => conj (check_extension_has_ext f e He Hf) (check_extension_idempotent f e He Hf)). Qed.
+Print Assumptions C19_check_extension_has_ext.
+
+Theorem C19_check_extension_cases :
+  forall f ext : text,
+    (ext_of f = ext /\ check_extension f ext = f) \/ (ext_of f <> ext /\ check_extension f ext = f ++ ext).
+Proof. exact check_extension_cases. Qed.
+Print Assumptions C19_check_extension_cases.
+
 (* ---- npz bookkeeping (the byte format is the hypothesis) ---- *)
 Theorem C19_npz_roundtrip :
   forall (K : ofield) (file : Type) (np_savez : npz K -> file) (np_load : file -> npz K),
@@ -275,3 +327,28 @@ Example ex_text_layer :
   map (map Z_of_str) (lex (render [("009"%char, map str_of_Z [3; 2]%Z); (" "%char, map str_of_Z [1; -5; 16777215]%Z)]))
   = [[Some 3; Some 2]; [Some 1; Some (-5); Some 16777215]]%Z.
 Proof. vm_compute. reflexivity. Qed.
+
+(* file names and extensions on concrete strings; names of the first 150 instances sort in index order (bounded) *)
+Example ex_file_name :
+  file_name 0 3 2 = list_ascii_of_string "0001_3j_2m.txt" /\ file_name 11 10 5 = list_ascii_of_string "0012_10j_5m.txt"
+  /\ file_name 12344 1 1 = list_ascii_of_string "12345_1j_1m.txt".
+Proof. vm_compute. repeat split. Qed.
+
+Fixpoint text_ltb (a b : text) : bool :=
+  match a, b with
+  | _, [] => false
+  | [], _ :: _ => true
+  | x :: a', y :: b' => Nat.ltb (nat_of_ascii x) (nat_of_ascii y) || (Nat.eqb (nat_of_ascii x) (nat_of_ascii y) && text_ltb a' b')
+  end.
+Example ex_file_names_sorted_150 :
+  forallb (fun i => text_ltb (file_name (Z.of_nat i) 3 2) (file_name (Z.of_nat (S i)) 3 2)) (seq 0 150) = true.
+Proof. vm_compute. reflexivity. Qed.
+
+Example ex_check_extension :
+  let E := list_ascii_of_string ".npz" in
+  check_extension (list_ascii_of_string "tsp20") E = list_ascii_of_string "tsp20.npz"
+  /\ check_extension (list_ascii_of_string "tsp20.npz") E = list_ascii_of_string "tsp20.npz"
+  /\ check_extension (list_ascii_of_string "data.v2/tsp20") E = list_ascii_of_string "data.v2/tsp20.npz"
+  /\ check_extension (list_ascii_of_string "x.npz.bak") E = list_ascii_of_string "x.npz.bak.npz"
+  /\ check_extension (list_ascii_of_string ".npz") E = list_ascii_of_string ".npz.npz".
+Proof. vm_compute. repeat split. Qed.
